@@ -39,6 +39,31 @@ INFO = {
     'C19_2': ('src/output.cpp output_text() CT_NL_CONT block: cpd.column + max(orig_sp, 1) also for ignore', 'sp_before_nl_cont=ignore and a backslash-newline directly attached to the preceding token'),
     'C20_1': ('src/newlines/blank_line.cpp do_blank_lines(): nl_max cap skipped for newlines flagged PCF_VAR_DEF', 'nl_max > 0 with nl_var_def_blk_end (or _start) > 0 and more than nl_max line breaks after a variable definition block'),
     'C20_2': ('src/newlines/can_increase_nl.cpp: the prev->Is(CT_BRACE_CLOSE)/nl_before_namespace block moved ahead of the next->Is(CT_BRACE_CLOSE) block', 'eat_blanks_* = true with nl_before/after_namespace = 2 and directly nested namespaces: blank lines next to the braces'),
+    # ---- round 2 (a second, independent set of sub-agents; sites of round 1 excluded) ----
+    'C02_3': ('src/space.cpp do_space(): the CT_VBRACE_OPEN rule widened from prev == SPAREN_CLOSE to prev == SPAREN_CLOSE or ELSE (spaced by sp_after_sparen)', 'sp_after_sparen=remove and a brace-less else whose statement starts with a word on the same line: "else return 1;" becomes "elsereturn 1;"'),
+    'C02_4': ('src/newlines/add.cpp newline_add_between(): GetNextNcNnl() became GetNextNcNnlNpp() in the "brace followed by comment" branch', 'an nl_*_brace=add/force option, "{" with a trailing comment on the head line and a preprocessor line directly after: the brace is re-inserted behind the #ifdef line'),
+    'C03_3': ('src/output.cpp cmt_trim_whitespace(): the continuation backslash is re-appended only when a blank preceded it', 'a multi-line /* */ comment inside a macro body whose line ends in text + backslash without a blank: the comment loses its continuation, the #define is cut off'),
+    'C03_4': ('src/tokenizer/tokenize_cleanup.cpp CT_OPERATOR type-collecting loop: GetNext() became GetNextNcNnl()', 'a comment between "operator <type-word>" and the "(" of a conversion operator: the comment is deleted'),
+    'C06_3': ('src/tokenizer/tokenize.cpp parse_cr_string(): the delimiter loop lost its ctx.more() test', 'a file whose last bytes are a raw-string prefix + delimiter without "(": endless append (bad_alloc / timeout)'),
+    'C06_4': ('src/tokenizer/tokenize.cpp parse_comment(): the "unexpected end of file" branch removed (a 2-character "/*" comment reaches Str().at(2) in output_comment_c)', 'cmt_trailing_single_line_c_to_cpp=true and a file ending in "/*": uncaught std::out_of_range'),
+    'C07_3': ('src/tokenizer/tokenize.cpp parse_comment(): "enable position < disable position" became "enable position < 0"', 'a marker comment that mentions the enable text before the disable text: the region is never opened and its text is formatted'),
+    'C07_4': ('src/newlines/remove.cpp newlines_remove_newlines(): newline_iarf(pc, IARF_REMOVE) replaced by newline_del_between() (skips the CT_IGNORED guard)', 'nl_remove_extra_newlines=2 and a disabled region of two or more lines: the lines are joined'),
+    'C08_3': ('src/tokenizer/tokenize.cpp parse_newline(): counts the terminators it consumes in cpd.le_counts', 'newlines=auto, mixed terminators and a disabled region whose terminators outnumber the rest of the file: the region decides the output terminator'),
+    'C08_4': ('src/output.cpp output_comment_multi(): the verbatim part between the two markers inside one comment written with add_text(text, true)', 'a block comment holding both markers across a line break and an output terminator different from the input: input CR/LF bytes leak'),
+    'C12_3': ('src/uncrustify.cpp main(): exit status of --check is the raw failure count', '--check over 256 (or a multiple of 256) failing files: exit status 0'),
+    'C12_4': ('src/uncrustify.cpp do_source_file(): the --if-changed buffer written with fputs(text.c_str())', '--if-changed and an output containing a NUL byte: the file is truncated at the NUL'),
+    'C13_3': ('src/uncrustify.cpp do_source_file(): backup_copy_file() moved behind the rename', 'in-place run with backups and a failure (or kill) in the backup step: the file is already replaced, the original is nowhere'),
+    'C13_4': ('src/uncrustify.cpp load_mem_file(): fread(buf, 1, size) with success "> 0" and fm.raw.resize(got)', 'a short read of the source (I/O error, file shrinking): the prefix is formatted and replaces the file; the backup holds the prefix only'),
+    'C14_3': ('src/uncrustify.cpp do_source_file(): the md5 file is refreshed only when the file was replaced', 'run (changes the file), user writes other already formatted text, run (no-op: the md5 now stays stale), user restores the earlier text, run with another configuration: the stale md5 matches, no backup of that text is made'),
+    'C14_4': ('src/backup.cpp backup_copy_file(): early return EX_OK for empty data', 'an emptied file: no backup of the (empty) user text is made, the old backup is taken for current'),
+    'C16_3': ('src/option.cpp process_option_line(): this_line_number bound by reference (const auto &) instead of copied', 'a config with an include line: every diagnostic after it names the line number of the end of the included file'),
+    'C16_4': ('src/option.cpp read_enum(): the type check of a referenced option replaced by convert_string(opt->str())', '"sp_arith = indent_class" (a bool option whose text is a literal of the other enumeration): accepted silently, the option changes'),
+    'C17_3': ('src/tokenizer/tokenize.cpp tokenize() strip loop split into a pass for blanks and a pass for tabs (range-for over an initializer list)', 'a #pragma / #region body ending in blank(s) followed by tab(s): the blanks survive at the end of the line'),
+    'C17_4': ('src/sorting.cpp remove_blank_lines_between_imports(): loop bound num_chunks - 1 became num_chunks', 'include sorting with mod_sort_incl_import_grouping_enabled, an include block that ends the file and nl_end_of_file_min >= 2: the file ends with one line break'),
+    'C19_3': ('src/space.cpp do_space(): the sp_square_fparen branch returns options::sp_inside_square()', 'a call through an array element "handlers[i](x)" with sp_square_fparen set differently from sp_inside_square'),
+    'C19_4': ('src/tokenizer/combine.cpp handle_cpp_lambda(): orig_col of the re-split "]" computed as if the brackets were adjacent', 'a lambda "[ ]() {}" under sp_inside_square_empty=ignore: the blank is not kept'),
+    'C20_3': ('src/newlines/eat_start_end.cpp: the start-of-file test compares with the hoisted end-of-file minimum', 'nl_start_of_file=add with nl_start_of_file_min >= 2 and a smaller nl_end_of_file_min: the file starts with one line break'),
+    'C20_4': ('src/newlines/remove.cpp newlines_remove_disallowed(): loop rewritten so that it also visits the first chunk', 'nl_start_of_file_min >= 2, code_width > 0 and an over-long line that gets split: the leading line breaks collapse to 1'),
 }
 
 
@@ -47,6 +72,18 @@ NOTES = {
     'C13_1': 'patch.diff is the author\'s change rebased by hand onto the repaired backup.cpp (repairs e348f26, bd86278 and the md5_str_in overflow fix); patch.orig.diff is the original; re-confirmed on the repaired tree',
     'C14_2': 'patch.diff is the author\'s change rebased by hand onto the repaired backup.cpp; patch.orig.diff is the original; re-confirmed on the repaired tree',
     'C16_1': 'patch.diff is the author\'s change rebased by hand onto the repaired read_number(); patch.orig.diff is the original',
+    'C02_3': 'missed when first run; caught after clause C02-K3c was added to the do_space VC (no REMOVE between a brace-less else/do and the following word)',
+    'C03_3': 'missed when first run; caught after cmt_trim_whitespace was brought under contract (C03-K4)',
+    'C03_1': 'missed in round 1 (strip loop not under contract); caught after the tokenize() strip loop proof was completed (C03-K5)',
+    'C07_3': 'missed when first run; caught after the marker decision of parse_comment was brought under contract (C07-K7)',
+    'C08_3': 'first run: undecided (frame of parse_newline changed); now a postcondition of parse_newline / parse_off_newlines ("does not vote in the census") fails',
+    'C13_3': 'missed when first run (the postcondition only asked for the backup at the end of the run); caught after rename_contract got the precondition "backup made, or backups off"',
+    'C13_4': 'missed when first run; caught after load_mem_file was brought under contract (C13-K4)',
+    'C16_3': 'missed when first run (dispatcher not under contract); caught by the line-counter clause of process_option_line (C16-K5)',
+    'C16_4': 'caught after read_enum<iarf_e> was brought under contract (C16-K6); the first "caught" verdict was an artefact of the unrepaired std::stoi defect',
+    'C17_3': 'undecided: the change uses a range-for over an initializer list, which the C++ front end of CBMC rejects (the slice no longer compiles); reported as exit 2, never as held',
+    'C12_4': 'undecided: the changed loop no longer matches desugaring rule D1 and uses std::string construction from iterators, outside the front end',
+    'C06_3': 'not in any kernel (parse_cr_string); C06 covers progress only for the leaf tokenizers listed in 9.3',
 }
 
 
